@@ -28,10 +28,10 @@ def dist_spec(draw, period, cls, allow_stochastic=True):
     if kind == "det":
         return {"k": "det", "c": c}
     if kind == "normal":
-        return {"k": "normal", "mu": c, "sigma": round(draw(st.integers(1, 50)) / 100.0 * max(c, 0.1 * period), 4)}
+        return {"k": "normal", "mu": c, "sigma": max(1e-4, round(draw(st.integers(1, 50)) / 100.0 * max(c, 0.1 * period), 4))}
     n = draw(st.integers(2, 3))
     mus = [round(max(0.0, c * draw(st.integers(30, 200)) / 100.0), 4) for _ in range(n)]
-    sig = [round(draw(st.integers(1, 40)) / 100.0 * max(c, 0.1 * period), 4) for _ in range(n)]
+    sig = [max(1e-4, round(draw(st.integers(1, 40)) / 100.0 * max(c, 0.1 * period), 4)) for _ in range(n)]  # a normal needs scale > 0
     w = [draw(st.integers(1, 5)) for _ in range(n)]
     return {"k": "mix", "mus": mus, "sigmas": sig, "w": [x / sum(w) for x in w]}
 
@@ -252,7 +252,17 @@ def lookahead_demand(spec):
 
 def make_supported(spec, threshold=8.0):
     """Constructive restriction to the supported class: where the look-ahead demand is too large, give the whole
-    system explicit zero expected delays (the public way to decouple phases from the simulated distributions)."""
+    system explicit zero expected delays (the public way to decouple phases from the simulated distributions).
+    An advance=True node on a cycle gets a strictly positive deterministic computation delay: with zero delay such a
+    loop is instantaneous (the node starts the moment its input arrives, its output arrives the same instant) and the
+    runtime waits forever for a time stamp strictly in the future - the same 'infinitely fast' situation rex rejects
+    for advance nodes without blocking inputs (calibration battery: 2 of 480 systems, both of this shape)."""
+    cyc_nodes = {n for c in _on_cycle(spec) for n in c}
+    for n in spec["nodes"]:
+        if n["advance"] and n["name"] in cyc_nodes:
+            d = n["delay"]
+            c = d["c"] if d["k"] == "det" else (d["mu"] if d["k"] == "normal" else max(d["mus"]))
+            n["delay"] = {"k": "det", "c": round(max(c, 0.001), 4)}
     if lookahead_demand(spec) > threshold:
         for n in spec["nodes"]:
             n["exp_delay"] = 0.0
